@@ -25,6 +25,7 @@ import (
 	gproto "google.golang.org/protobuf/proto"
 
 	"github.com/liftbridge-io/liftbridge/server/commitlog"
+	proto "github.com/liftbridge-io/liftbridge/server/protocol"
 )
 
 var (
@@ -175,6 +176,12 @@ type vC14Concrete struct {
 }
 
 func vC14Concretise(k vC14Key, hl int, pbOK bool, shape string, rng *rand.Rand) vC14Concrete {
+	return vC14ConcretiseTyped(k, hl, pbOK, shape, rng, 0, nil)
+}
+
+// vC14ConcretiseTyped: typ is the envelope type the receiver expects; tmpl (if not nil) is the
+// start of the protobuf payload, padded with an unknown field to the exact size when there is room.
+func vC14ConcretiseTyped(k vC14Key, hl int, pbOK bool, shape string, rng *rand.Rand, typ byte, tmpl []byte) vC14Concrete {
 	data := make([]byte, k.Len)
 	hdr := make([]byte, 8)
 	copy(hdr, vC14Magic)
@@ -191,8 +198,12 @@ func vC14Concretise(k vC14Key, hl int, pbOK bool, shape string, rng *rand.Rand) 
 	if k.OtherFlags {
 		hdr[6] |= byte(1+rng.Intn(127)) << 1
 	}
+	hdr[7] = typ
 	if !k.TypeOK {
-		hdr[7] = byte(1 + rng.Intn(255)) // publish is type 0
+		hdr[7] = byte(rng.Intn(256))
+		for hdr[7] == typ {
+			hdr[7] = byte(rng.Intn(256))
+		}
 	}
 	copy(data, hdr)
 	c := vC14Concrete{data: data}
@@ -201,7 +212,16 @@ func vC14Concretise(k vC14Key, hl int, pbOK bool, shape string, rng *rand.Rand) 
 		for j := 8; j < p; j++ {
 			data[j] = byte(rng.Intn(256))
 		}
-		if pbOK {
+		if n := k.Len - p; pbOK && tmpl != nil {
+			switch q := n - len(tmpl); {
+			case q == 0 || (q >= 2 && q-2 <= 127):
+				c.payload = append(append([]byte{}, tmpl...), vC14Pad(q, rng)...)
+			case n == 0:
+				c.payload = []byte{}
+			default:
+				c.payload = vC14Pad(n, rng)
+			}
+		} else if pbOK {
 			c.payload = vC14ValidMessage(k.Len-p, shape, rng)
 		} else {
 			c.payload = vC14Invalid(k.Len-p, rng)
@@ -378,6 +398,58 @@ func vC14StartServer(t *testing.T) (*Server, string) {
 	return vOneNodeServer(t, cfg), cfg.NATS.Servers[0]
 }
 
+// vC14Internal: subject, expected envelope type and request template of an internal RPC handler.
+// Shapes are well-formed requests with missing sub-messages or unexpected ids.
+func vC14Internal(srv *Server, part *partition, stream, h string, shape int) (string, byte, []byte) {
+	id := srv.config.Clustering.ServerID
+	str := func(field int, v string) []byte { return append([]byte{byte(field<<3 | 2), byte(len(v))}, v...) }
+	switch h {
+	case "propagate": // PropagatedRequest: type 8
+		var tmpl []byte
+		switch {
+		case shape == 0:
+			tmpl = []byte{}
+		case shape <= 13:
+			tmpl = []byte{0x08, byte(shape)} // an op without its sub-message
+		case shape == 14:
+			tmpl = []byte{0x12, 0x00} // CREATE_STREAM with a CreateStreamOp that has no stream
+		default:
+			tmpl = []byte{0x08, 0x01, 0x1A, 0x00} // SHRINK_ISR with an empty ShrinkISROp
+		}
+		return srv.getPropagateInbox(), 8, tmpl
+	case "serverinfo": // ServerInfoRequest: type 10
+		if shape%2 == 1 {
+			return srv.getServerInfoInbox(), 10, str(1, "x")
+		}
+		return srv.getServerInfoInbox(), 10, []byte{}
+	case "partstatus": // PartitionStatusRequest: type 12
+		if shape%2 == 1 {
+			return srv.getPartitionStatusInbox(id), 12, str(1, stream)
+		}
+		return srv.getPartitionStatusInbox(id), 12, []byte{}
+	case "notify": // PartitionNotification: type 14
+		if shape%2 == 1 {
+			return srv.getPartitionNotificationInbox(id), 14, str(1, stream)
+		}
+		return srv.getPartitionNotificationInbox(id), 14, []byte{}
+	case "replreq": // ReplicationRequest: type 2
+		switch shape % 4 {
+		case 1:
+			return part.getReplicationRequestInbox(), 2, str(1, id) // the leader itself as replica id
+		case 2:
+			return part.getReplicationRequestInbox(), 2, str(1, "zzz")
+		case 3:
+			return part.getReplicationRequestInbox(), 2, append(str(1, id), 0x18, 0x63) // wrong leader epoch
+		}
+		return part.getReplicationRequestInbox(), 2, []byte{}
+	default: // leaderoffset, LeaderEpochOffsetRequest: type 6
+		if shape%2 == 1 {
+			return part.getLeaderOffsetRequestInbox(), 6, []byte{0x08, 0x05}
+		}
+		return part.getLeaderOffsetRequestInbox(), 6, []byte{}
+	}
+}
+
 type vC14Entry struct {
 	K  string `json:"k"`
 	ID int    `json:"id"`
@@ -533,6 +605,35 @@ func TestVerifC14Server(t *testing.T) {
 				emit(map[string]interface{}{"a": "PublishRaw", "t": b.ID, "args": args,
 					"st":  map[string]interface{}{"up": srv.IsRunning(), "stored": stored},
 					"obs": map[string]interface{}{"a": "PublishRaw", "k": k2, "same": same}})
+			case "Internal":
+				im := step["i"].(map[string]interface{})
+				k := vC14Key{Len: int(vInt(im, "len")), MagicOK: vBool(im, "magicOK"), VerOK: vBool(im, "verOK"),
+					CrcFlag: vBool(im, "crcFlag"), OtherFlags: vBool(im, "otherFlags"), TypeOK: vBool(im, "typeOK"),
+					CrcOK: vBool(im, "crcOK")}
+				hl, pbOK, h, shape := int(vInt(im, "hl")), vBool(step, "pbOK"), vStr(step, "h"), int(vInt(step, "shape"))
+				subject, typ, tmpl := vC14Internal(srv, part, stream, h, shape)
+				c := vC14ConcretiseTyped(k, hl, pbOK, "plain", vC14Rng(seed, k, hl, pbOK, 1000+sn), typ, tmpl)
+				args := map[string]interface{}{"i": im, "pbOK": pbOK, "h": h, "shape": shape}
+				intent(map[string]interface{}{"t": b.ID, "step": sn, "a": "Internal", "args": args, "hex": fmt.Sprintf("%x", c.data),
+					"subject": subject})
+				if err := nc.Publish(subject, c.data); err != nil {
+					t.Fatalf("INCONCLUSIVE: nats publish: %v", err)
+				}
+				nc.Flush()
+				// let the handler run, then make sure the process still answers on NATS
+				time.Sleep(5 * time.Millisecond)
+				probe, _ := proto.MarshalServerInfoRequest(&proto.ServerInfoRequest{Id: "c14-probe"})
+				if _, err := nc.Request(srv.getServerInfoInbox(), probe, vC14Deadline); err != nil {
+					t.Fatalf("INCONCLUSIVE: server does not answer the liveness probe: %v", err)
+				}
+				msgs, err := vC14ReadLog(part)
+				if err != nil {
+					t.Fatalf("INCONCLUSIVE: read log: %v", err)
+				}
+				stored, _ := vC14Project(msgs, pubs)
+				emit(map[string]interface{}{"a": "Internal", "t": b.ID, "args": args,
+					"st":  map[string]interface{}{"up": srv.IsRunning(), "stored": stored},
+					"obs": map[string]interface{}{"a": "Internal", "k": "sent", "same": true}})
 			case "ReadBack":
 				// a consumer subscribes from the start: it must receive what the log holds
 				intent(map[string]interface{}{"t": b.ID, "step": sn, "a": "ReadBack", "args": map[string]interface{}{}})
